@@ -171,6 +171,8 @@ Plan genBuild(const std::string& prop, int tier, uint64_t batchSeed, uint64_t id
         }
         if (r.chance(1, 6))
             op.set("same", 1);
+        if (r.chance(1, 6))
+            op.set("via", 1);  // the content arrives by copy assignment from a sibling object
         if (r.chance(1, 2) || prevN[oi] < 0)
             op.set("hdr", 1).set("hseed", static_cast<int64_t>(r.next() >> 1));
         int64_t hi;
@@ -235,6 +237,8 @@ Plan genTecmp(const std::string& prop, int tier, uint64_t batchSeed, uint64_t id
     Gen g(prop, tier, batchSeed, idx);
     Rng& r = g.rng;
     g.cfg().set("rx", 1);
+    if (prop == "C15" && r.chance(1, 4))
+        g.cfg().set("locale", 1);  // the process has a global C++ locale with digit grouping installed
     g.addNode(1, 3, 0, 0);
     const size_t n = 1 + r.below(tier ? 40 : 16);
     for (size_t k = 0; k < n; ++k)
